@@ -124,10 +124,26 @@ def unit_expr(ux):
 
 
 def registry(reg):
+    """registry of the spec -> dict of base units; an entry with a number factor other than 1 is the scaled
+    quantity factor * unit (as a user writes 0.1*metre, or as unit_registry_from_human_readable returns it)"""
     u = U()
-    r = {k: getattr(u, reg[k]) for k in DIMS}
+    fac = reg.get("factors") or {}
+    gv = gen_values({})
+    r = {}
+    for k in DIMS:
+        unit = getattr(u, reg[k])
+        f = scale_num(fac[k], gv) if k in fac else 1      # the factor travels as its exponent vector over 2, 3, 5
+        r[k] = unit if f == 1 else float(f) * unit
     r["luminous_intensity"] = u.candela
     return r
+
+
+def reg_event(reg):
+    """the registry as it travels in a trace event (names + factors, nothing else)"""
+    out = {k: reg[k] for k in DIMS}
+    if reg.get("factors"):
+        out["factors"] = {k: dict(reg["factors"][k]) for k in DIMS}
+    return out
 
 
 # ------------------------------------------------------------------ projection
